@@ -100,7 +100,7 @@ pub fn gen_world(seed: u64, idx: u64, s: &dyn SuiteOps, shared_tapes: bool, samp
             _ => WIds { client: IdSpec::Bytes(name.to_vec().into()), server: IdSpec::Bytes(b"server".to_vec().into()) },
         }
     };
-    let names: [&[u8]; 4] = [b"alice", b"bob", b"carol", b"alice"];
+    let names: [&[u8]; 4] = [b"alice", b"bob", b"carol", b"alice\n"]; // the re-registration spells the name with a trailing newline
     let ids = uid(b"alice");
     let ctx = if g.chance(1, 2) { Some(b"c07".to_vec()) } else { None };
     let mut prelude: Vec<Op> = vec![];
